@@ -161,6 +161,22 @@ func (p *Packer) PackVideoAU(nals [][]byte, ts uint32) []Packet {
 	return out
 }
 
+// PackAacAggregate puts several complete AAC access units into one packet (RFC 3640 3.2.1: AU-headers-length, one
+// 16-bit AU header each, then the access units back to back); the RTP timestamp is that of the first one.
+func (p *Packer) PackAacAggregate(frames [][]byte, ts uint32) Packet {
+	n := len(frames)
+	pl := []byte{byte(16 * n >> 8), byte(16 * n)}
+	for _, f := range frames {
+		pl = append(pl, byte(len(f)>>5), byte(len(f)&0x1f)<<3)
+	}
+	for _, f := range frames {
+		pl = append(pl, f...)
+	}
+	pk := Packet{PT: p.PT, Seq: p.Seq, Ts: ts, Ssrc: p.Ssrc, Payload: pl, Marker: true}
+	p.Seq++
+	return pk
+}
+
 // PackAudio packetises one audio frame (AAC: one AU per packet, RFC 3640 AAC-hbr; raw otherwise).
 func (p *Packer) PackAudio(frame []byte, ts uint32) []Packet {
 	var pl []byte
